@@ -78,23 +78,30 @@ int search_file_compare(const void* void_arg, const void* void_data)
 	/* read the block and compare the hash */
 	f = open(path, O_RDONLY | O_BINARY);
 	if (f == -1) {
+		/* if the file is not present anymore, it cannot match. */
+		/* It happens also when fix renames it as unrecoverable */
+		if (errno == ENOENT)
+			return -1;
+
 		/* LCOV_EXCL_START */
-		if (errno == ENOENT) {
-			log_fatal("DANGER! file '%s' disappeared.\n", path);
-			log_fatal("If you moved it, please rerun the same command.\n");
-		} else {
-			log_fatal("Error opening file '%s'. %s.\n", path, strerror(errno));
-		}
+		log_fatal("Error opening file '%s'. %s.\n", path, strerror(errno));
 		exit(EXIT_FAILURE);
 		/* LCOV_EXCL_STOP */
 	}
 
 	ret = pread(f, arg->buffer, arg->read_size, arg->offset);
-	if (ret < 0 || (unsigned)ret != arg->read_size) {
+	if (ret < 0) {
 		/* LCOV_EXCL_START */
 		log_fatal("Error reading file '%s'. %s.\n", path, strerror(errno));
 		exit(EXIT_FAILURE);
 		/* LCOV_EXCL_STOP */
+	}
+
+	/* if the file is now shorter, it cannot match. */
+	/* It happens also when fix truncates it */
+	if ((unsigned)ret != arg->read_size) {
+		close(f);
+		return -1;
 	}
 
 	ret = close(f);
